@@ -69,6 +69,9 @@ type vC08Lab struct {
 	counter  *vC08Counter
 	nontriv  bool
 	ghostChk int
+	// delegations removed from the cache since the last tree (eviction / ErrorCount / purge)
+	pendingRemoved []string
+	evicted        map[string]bool
 }
 
 func (l *vC08Lab) keyID(name string, qtype uint16) int {
@@ -216,9 +219,13 @@ func (l *vC08Lab) tree(name string, t0, t1 int64, refresh, fromCache bool, log [
 				}
 				// a lease that is still running is neither extended nor re-pointed by a further
 				// referral; once it has run out the next referral starts a new one
-				if cur, have := l.lastRef[e.refZ]; !have || t0 >= cur {
+				if cur, have := l.lastRef[e.refZ]; !have || t0 >= cur || l.evicted[e.refZ] {
+					if have && l.evicted[e.refZ] && l.lastTo[e.refZ] == e.refTo && cur > end {
+						end = cur // what was learned under the evicted entry's lease may still be around
+					}
 					l.lastRef[e.refZ] = end
 					l.lastTo[e.refZ] = e.refTo
+					delete(l.evicted, e.refZ)
 				}
 			}
 		case vC08RespAnswer, vC08RespNeg:
@@ -229,8 +236,13 @@ func (l *vC08Lab) tree(name string, t0, t1 int64, refresh, fromCache bool, log [
 	if withDump {
 		ds, es, human = l.dump()
 	}
-	l.trees = append(l.trees, fmt.Sprintf("mk_ltree %s %s %d %s [%s] [%s]%%N %s %s %s",
-		vC08Z(t0), vC08Z(t1), key, vC08B(refresh), strings.Join(acts, "; "), strings.Join(asked, ";"), vC08B(fromCache), ds, es))
+	var removed []string
+	for _, z := range l.pendingRemoved {
+		removed = append(removed, l.labs.zone(z))
+	}
+	l.pendingRemoved = nil
+	l.trees = append(l.trees, fmt.Sprintf("mk_ltree %s %s %d %s [%s] [%s] [%s]%%N %s %s %s",
+		vC08Z(t0), vC08Z(t1), key, vC08B(refresh), strings.Join(removed, "; "), strings.Join(acts, "; "), strings.Join(asked, ";"), vC08B(fromCache), ds, es))
 	l.desc = append(l.desc, fmt.Sprintf("  tree[%s..%s] refresh=%v fromCache=%v asked=%v acts=%v | %s", time.Duration(t0), time.Duration(t1), refresh, fromCache, asked, acts, human))
 }
 
@@ -301,6 +313,7 @@ func vC08PickTTL(r *rand.Rand, theme int) uint32 {
 	short := []uint32{4, 10, 30, 60}
 	mid := []uint32{300, 3600, 21600}
 	long := []uint32{43199, 43200, 43201, 86400, 172800}
+	upTo12h := []uint32{43199, 43200}
 	switch theme {
 	case 0:
 		return short[r.Intn(len(short))]
@@ -309,7 +322,9 @@ func vC08PickTTL(r *rand.Rand, theme int) uint32 {
 	case 2:
 		return long[r.Intn(len(long))]
 	}
-	all := append(append(append([]uint32{}, short...), mid...), long...)
+	// only the dedicated theme publishes TTLs above 12 h (the class of the known finding), so that
+	// every other scenario is judged strictly
+	all := append(append(append([]uint32{}, short...), mid...), upTo12h...)
 	return all[r.Intn(len(all))]
 }
 
@@ -343,8 +358,8 @@ func (l *vC08Lab) scenario(idx int) {
 	w.mu.Unlock()
 
 	prefetch := 0
-	if r.Intn(3) == 0 {
-		prefetch = 50 + r.Intn(41)
+	if r.Intn(2) == 0 {
+		prefetch = []int{50, 75, 90, 90}[r.Intn(4)]
 	}
 	l.p = vC08NewPipeWith(l.t, w, prefetch, 0, l.counter)
 	defer l.p.close()
@@ -352,6 +367,7 @@ func (l *vC08Lab) scenario(idx int) {
 	l.keys, l.names, l.trees, l.desc = map[string]int{}, nil, nil, nil
 	l.lastRef, l.lastTo, l.retired = map[string]int64{}, map[string]int{}, map[int]int64{}
 	l.goFail, l.over12h, l.inconcl, l.nontriv, l.ghostChk = "", false, false, false, 0
+	l.pendingRemoved, l.evicted = nil, map[string]bool{}
 	l.labs = vC08Labels{}
 	l.desc = append(l.desc, fmt.Sprintf("scenario %d: theme=%d deep=%v prefetch=%d tld=%v a=%v", idx, theme, deep, prefetch,
 		w.srvs[0].deleg["tld."].nsTTL, w.srvs[1].deleg["a.tld."].nsTTL))
@@ -364,7 +380,64 @@ func (l *vC08Lab) scenario(idx int) {
 	steps := 6 + r.Intn(8)
 	l.query(qnames[r.Intn(len(qnames))])
 	for s := 0; s < steps && !l.inconcl; s++ {
-		switch op := r.Intn(23); {
+		nops := 27
+		if prefetch > 0 {
+			nops = 30 // with background refresh on, probe the refreshed entry's lineage more often
+		}
+		switch op := r.Intn(nops); {
+		case op >= 25:
+			// lineage probe: a name is in the answer cache; the delegation it was learned through drops
+			// out of the cache, the parent publishes other TTLs, another name re-learns the delegation
+			// (a new lease), and the first name is asked again: whatever is then served or refreshed in
+			// the background must carry the lineage it was (re-)learned through
+			var live []string
+			for _, n := range l.names {
+				if e, ok := l.p.entry(n, dns.TypeA); ok && e.Rcode == dns.RcodeSuccess && e.Answers > 0 {
+					end := l.p.virt(e.Stored) + int64(e.TTL)
+					if !e.CutUntil.IsZero() && l.p.virt(e.CutUntil) < end {
+						end = l.p.virt(e.CutUntil)
+					}
+					if end > l.p.now()+4*vC08Margin {
+						live = append(live, n)
+					}
+				}
+			}
+			if len(live) == 0 {
+				break
+			}
+			n := live[r.Intn(len(live))]
+			z := "a.tld."
+			if strings.HasSuffix(strings.ToLower(n), ".s.a.tld.") && r.Intn(2) == 0 {
+				z = "s.a.tld."
+			}
+			if _, ok := l.p.deleg(z); !ok {
+				break
+			}
+			l.p.h.resolver.delegations.Remove(l.p.delegKey(z))
+			l.pendingRemoved = append(l.pendingRemoved, z)
+			l.evicted[z] = true
+			w.mu.Lock()
+			for _, sv := range w.srvs {
+				if d, ok := sv.deleg[z]; ok {
+					d.nsTTL = ttls()
+				}
+			}
+			w.mu.Unlock()
+			l.desc = append(l.desc, fmt.Sprintf("lineage probe on %s: evict %s, new TTLs", n, z))
+			other := "w3." + z
+			l.query(other)
+			l.advance(int64(time.Second) * int64(1+r.Intn(3)))
+			l.query(n)
+		case op >= 23:
+			// a delegation drops out of the cache (eviction, ErrorCount removal, purge): nothing is
+			// outstanding for it any more and the next referral from the parent starts a new lease
+			z := l.zones[r.Intn(len(l.zones))]
+			if _, ok := l.p.deleg(z); ok {
+				l.p.h.resolver.delegations.Remove(l.p.delegKey(z))
+				l.pendingRemoved = append(l.pendingRemoved, z)
+				l.evicted[z] = true
+				l.desc = append(l.desc, "evict delegation "+z)
+			}
 		case op >= 20:
 			// ghost probe: the parent withdraws (or re-points) a.tld., the clock moves to just
 			// after the end of the lease it last granted, and the names asked so far are asked again
